@@ -1,6 +1,8 @@
 use std::error;
 
 pub mod logger;
+#[cfg(feature = "verif-sim")]
+pub mod simio;
 pub mod utils;
 
 pub type Result<T> = std::result::Result<T, Error>;
